@@ -416,7 +416,33 @@ HISTORY = [
     # a prefix byte that cannot be fused (stacked prefixes): rejected or executed as a dangling prefix, it must
     # leave nothing behind that changes the addressing of the next instruction
     ("two stacked PRE bytes executed before (dangling prefix)", [0x32, 0x30, 0x08, 0x10], None),
+    # tracing state: a performance tracer attached to the memory object (the hook execute_instruction and the
+    # fetch path look for) must not change any architectural result
+    ("performance tracer attached to the memory (tracing state)", None, None, "tracer"),
 ]
+
+
+class _NullTracer:
+    """Stands for any tracer object: records nothing, accepts every call of the tracing interface."""
+
+    class _Slice:
+        def __enter__(self):
+            return self
+
+        def __exit__(self, *a):
+            return False
+
+    def slice(self, *a, **k):
+        return _NullTracer._Slice()
+
+    def instant(self, *a, **k):
+        return None
+
+    def counter(self, *a, **k):
+        return None
+
+    def __bool__(self):
+        return True
 
 
 def _module_state():
@@ -522,6 +548,8 @@ def run_path_hist(eng, pre, opcode, hist_idx, block_n=None, addr=0x1000):
         pass
     swb.cur = fresh_mem()
     load_arch(eb, "b")
+    if len(HISTORY[hist_idx]) > 3 and HISTORY[hist_idx][3] == "tracer":
+        eb.memory._perf_tracer = _NullTracer()
     rb = execute(eb)
     mb = swb.cur
     if ra[0] != "ok" and rb[0] != "ok":
@@ -771,6 +799,19 @@ def unit_stepper(unit):
                 pass
         compare("after-history", one.step(snap(), image))
         compare("after-history:new-stepper", ST.CPUStepper(default_memory_value=default).step(snap(), image))
+        # chained use: the image dict RETURNED by a previous step is edited in place by the host (here: rewritten
+        # into the image under test) and handed back to the same stepper object -- the result must only depend on
+        # the contents of the dict, not on which dict object it is
+        for hi in (1, 4):
+            htext, hcode, hfixed = STEP_CASES[hi]
+            himage = {addr + i: b for i, b in enumerate(hcode)}
+            himage.update({0x100020: 0x5A, 0x20000: 0x77})
+            hs = ST.CPURegistersSnapshot(pc=addr, ba=0x7755, i=3, x=0x20010, y=0x20020, u=hfixed.get("U", 0x30010), s=hfixed.get("S", 0x40010), f=1)
+            prev = one.step(hs, himage)
+            handed_back = prev.memory_image
+            handed_back.clear()
+            handed_back.update(image)
+            compare(f"chained-same-dict-after-{hi}", one.step(snap(), handed_back))
         P0 = lambda n, c, d=None: eng.prove(n, core._b(c), detail=d)
         P0("stepper:caller-image-untouched", all(k in image for k in image) and len(image) == len(code) + len(data_cells) and
            all(image[addr + i] == b for i, b in enumerate(code)), "step() must not modify the caller's memory image")
